@@ -4,6 +4,7 @@ Theorems about the token-level model `IrisVerif.Model.ModelLang` (see the header
 is not inside the model: character-level parsing is tied by the differential run only => level "partial").
 -/
 import IrisVerif.Model.ModelLang
+import IrisVerif.Model.ModelLangTok
 import Mathlib.Algebra.Field.Basic
 import Mathlib.Algebra.BigOperators.Group.List.Basic
 import Mathlib.Tactic.Ring
@@ -791,5 +792,251 @@ theorem same_meaning_same_value {K : Type} [Field K] (A : Alg K) (defs : String 
     (h : evalDoc A defs data t p = evalDoc A defs data t q) : eval A data t e₁ = eval A data t e₂ := by
   rw [eval_expand A defs data t p e₁ h₁, eval_expand A defs data t q e₂ h₂] at h
   exact Option.some.inj h
+
+/-! ## 7. Printer / parser round trip -/
+
+theorem printFull_head (e : Expr) : ∃ t r, printFull e = t :: r ∧ t ≠ .op .sub := by
+  cases e <;> simp [printFull]
+
+theorem parseTok_lp (n : Nat) (t : Tok) (r : List Tok) (h : t ≠ .op .sub) :
+    parseTok (n + 1) (.lp :: t :: r) = parseBinRest (parseTok n) (t :: r) := by
+  cases t with
+  | op o => cases o <;> first | exact absurd rfl h | rfl
+  | _ => rfl
+
+/-- the parser reads back exactly the tree that was printed, and leaves what follows it untouched; any depth budget from the
+height of the tree upwards will do -/
+theorem parseTok_printFull (e : Expr) : ∀ (n : Nat) (rest : List Tok), e.height ≤ n →
+    parseTok n (printFull e ++ rest) = some (e, rest) := by
+  induction e with
+  | num q =>
+    intro n rest h
+    obtain ⟨m, rfl⟩ : ∃ m, n = m + 1 := ⟨n - 1, by simp [Expr.height] at h; omega⟩
+    simp [printFull, parseTok]
+  | name x k =>
+    intro n rest h
+    obtain ⟨m, rfl⟩ : ∃ m, n = m + 1 := ⟨n - 1, by simp [Expr.height] at h; omega⟩
+    simp [printFull, parseTok]
+  | neg e ih =>
+    intro n rest h
+    simp only [Expr.height] at h
+    obtain ⟨m, rfl⟩ : ∃ m, n = m + 1 := ⟨n - 1, by omega⟩
+    simp only [printFull, List.cons_append, List.append_assoc, parseTok]
+    rw [ih m _ (by omega)]
+    simp
+  | bin o a b iha ihb =>
+    intro n rest h
+    simp only [Expr.height] at h
+    obtain ⟨m, rfl⟩ : ∃ m, n = m + 1 := ⟨n - 1, by omega⟩
+    obtain ⟨t, r, ht, hne⟩ := printFull_head a
+    have hp : parseTok (m + 1) (.lp :: (printFull a ++ .op o :: (printFull b ++ .rp :: rest)))
+        = parseBinRest (parseTok m) (printFull a ++ .op o :: (printFull b ++ .rp :: rest)) := by
+      rw [ht]; exact parseTok_lp m t _ hne
+    simp only [printFull, List.cons_append, List.append_assoc, List.nil_append]
+    rw [hp]
+    simp only [parseBinRest]
+    rw [iha m _ (by omega)]
+    simp only
+    rw [ihb m _ (by omega)]
+  | call1 f a ih =>
+    intro n rest h
+    simp only [Expr.height] at h
+    obtain ⟨m, rfl⟩ : ∃ m, n = m + 1 := ⟨n - 1, by omega⟩
+    simp only [printFull, List.cons_append, List.append_assoc, parseTok]
+    rw [ih m _ (by omega)]
+    simp
+  | call2 f a b iha ihb =>
+    intro n rest h
+    simp only [Expr.height] at h
+    obtain ⟨m, rfl⟩ : ∃ m, n = m + 1 := ⟨n - 1, by omega⟩
+    simp only [printFull, List.cons_append, List.append_assoc, parseTok]
+    rw [iha m _ (by omega)]
+    simp only
+    rw [ihb m _ (by omega)]
+    simp
+
+theorem height_le_length (e : Expr) : e.height ≤ (printFull e).length := by
+  induction e with
+  | num q => simp [Expr.height, printFull]
+  | name x k => simp [Expr.height, printFull]
+  | neg e ih => simp [Expr.height, printFull]; omega
+  | bin o a b iha ihb => simp [Expr.height, printFull]; omega
+  | call1 f a ih => simp [Expr.height, printFull]; omega
+  | call2 f a b iha ihb => simp [Expr.height, printFull]; omega
+
+/-- `parse (print e) = e` for every tree of the expression grammar -/
+theorem parse_print (e : Expr) : parseExprTok (printFull e) = some e := by
+  have := parseTok_printFull e (printFull e).length [] (height_le_length e)
+  simp only [List.append_nil] at this
+  simp [parseExprTok, this]
+
+
+theorem length_printFull_pos (e : Expr) : e.height ≤ (printFull e).length := height_le_length e
+
+/-- equations: `lhs = rhs` and bare expressions are read back exactly -/
+theorem parseEqn_printEqn (q : Eqn Expr) : parseEqn (printEqn q) = some q := by
+  cases q with
+  | bare e =>
+    have := parseTok_printFull e (printFull e).length [] (height_le_length e)
+    simp only [List.append_nil] at this
+    simp [parseEqn, printEqn, this]
+  | eq l r =>
+    have hl : l.height ≤ (printFull l ++ Tok.eq :: printFull r).length := by
+      have := height_le_length l; simp; omega
+    have hr : r.height ≤ (printFull l ++ Tok.eq :: printFull r).length := by
+      have := height_le_length r; simp; omega
+    have h1 := parseTok_printFull l _ (Tok.eq :: printFull r) hl
+    have h2 := parseTok_printFull r _ [] hr
+    simp only [List.append_nil] at h2
+    simp only [parseEqn, printEqn, h1, h2]
+
+/-! ## 8. Keyword aliases -/
+
+theorem expandShortcut_of_not_bang (w : List Char) (h : w.head? ≠ some '!') : expandShortcut w = w := by
+  unfold expandShortcut
+  have h1 : w ≠ kwVariables := by intro e; rw [e] at h; exact h rfl
+  have h2 : w ≠ kwShocks := by intro e; rw [e] at h; exact h rfl
+  have h3 : w ≠ kwEquations := by intro e; rw [e] at h; exact h rfl
+  simp [h1, h2, h3]
+
+/-- a word that does not start with `!` (a name such as `k_ss`, a number, an operator) is never touched -/
+theorem normaliseWord_of_not_bang (w : List Char) (h : w.head? ≠ some '!') : normaliseWord w = w := by
+  unfold normaliseWord
+  rw [expandShortcut_of_not_bang w h]
+  match w, h with
+  | [], _ => rfl
+  | c :: r, h =>
+    have hc : c ≠ '!' := by intro e; subst e; exact h rfl
+    unfold hyphenate
+    split
+    · rename_i heq; cases heq; exact absurd rfl hc
+    · rename_i heq; cases heq; exact absurd rfl hc
+    · rfl
+
+/-- the `!!` separator, with whatever is glued to it (`!!k_ss`), is never touched -/
+theorem normaliseWord_bangbang (r : List Char) : normaliseWord ('!' :: '!' :: r) = '!' :: '!' :: r := by
+  have h : expandShortcut ('!' :: '!' :: r) = '!' :: '!' :: r := by
+    unfold expandShortcut
+    have h1 : ('!' :: '!' :: r) ≠ kwVariables := by simp [kwVariables]
+    have h2 : ('!' :: '!' :: r) ≠ kwShocks := by simp [kwShocks]
+    have h3 : ('!' :: '!' :: r) ≠ kwEquations := by simp [kwEquations]
+    simp [h1, h2, h3]
+  unfold normaliseWord
+  rw [h]; rfl
+
+/-- every documented spelling of every block keyword is mapped to its canonical keyword -/
+theorem normalise_aliases : ∀ p ∈ keywordAliases, normaliseWord p.1 = p.2 := by decide
+
+/-- the canonical keywords are fixed points (normalising twice changes nothing on the documented spellings) -/
+theorem normalise_canonical_fixed : ∀ p ∈ keywordAliases, normaliseWord p.2 = p.2 := by decide
+
+/-- on a token list: length and positions are kept, `!!…` tokens and non-keyword tokens stay as they are -/
+theorem normaliseKeywords_getElem (ws : List (List Char)) (i : Nat) (h : i < ws.length) :
+    (normaliseKeywords ws)[i]? = some (normaliseWord ws[i]) := by
+  simp [normaliseKeywords, h]
+
+example : normaliseKeywords [['!', '!', 'k', '_', 's', 's'], ['k', '_', 's', 's'], kwVariables,
+      ['!', 'l', 'o', 'g', '_', 'v', 'a', 'r', 'i', 'a', 'b', 'l', 'e', 's']]
+    = [['!', '!', 'k', '_', 's', 's'], ['k', '_', 's', 's'], kwTransitionVariables,
+      ['!', 'l', 'o', 'g', '-', 'v', 'a', 'r', 'i', 'a', 'b', 'l', 'e', 's']] := by decide
+
+/-! ## 9. Substitutions: a pure function of this source's definitions -/
+
+theorem resolveSubstitutions_append (defs : List (String × List STok)) (a b : List STok) :
+    resolveSubstitutions defs (a ++ b) = resolveSubstitutions defs a ++ resolveSubstitutions defs b := by
+  simp [resolveSubstitutions]
+
+theorem resolveSubstitutions_cons (defs : List (String × List STok)) (t : STok) (r : List STok) :
+    resolveSubstitutions defs (t :: r) = resolveSubstitutions defs [t] ++ resolveSubstitutions defs r := by
+  simp [resolveSubstitutions]
+
+/-- ordinary words are untouched -/
+theorem resolveSubstitutions_word (defs : List (String × List STok)) (w : String) :
+    resolveSubstitutions defs [.word w] = [.word w] := by simp [resolveSubstitutions]
+
+/-- a defined `$s$` is replaced by the body of its definition, as it is written (textual substitution) -/
+theorem resolveSubstitutions_ref (defs : List (String × List STok)) (s : String) (d : List STok)
+    (h : lookupLast defs s = some d) : resolveSubstitutions defs [.ref s] = d := by
+  simp [resolveSubstitutions, h]
+
+/-- an undefined `$s$` stays (the code then rejects the equation) -/
+theorem resolveSubstitutions_undefined (defs : List (String × List STok)) (s : String)
+    (h : lookupLast defs s = none) : resolveSubstitutions defs [.ref s] = [.ref s] := by
+  simp [resolveSubstitutions, h]
+
+/-- the last definition of a name is the one in force -/
+theorem lookupLast_snoc (defs : List (String × List STok)) (s : String) (d : List STok) :
+    lookupLast (defs ++ [(s, d)]) s = some d := by
+  simp [lookupLast]
+
+/-- definitions of other names are irrelevant for `$s$` -/
+theorem lookupLast_snoc_ne (defs : List (String × List STok)) (s s' : String) (d : List STok) (h : s' ≠ s) :
+    lookupLast (defs ++ [(s', d)]) s = lookupLast defs s := by
+  simp [lookupLast, h]
+
+/-- text without references does not depend on the definitions at all -/
+theorem resolveSubstitutions_no_refs (defs : List (String × List STok)) (ws : List String) :
+    resolveSubstitutions defs (ws.map .word) = ws.map .word := by
+  induction ws with
+  | nil => rfl
+  | cons w r ih => rw [List.map_cons, resolveSubstitutions_cons, ih, resolveSubstitutions_word]; rfl
+
+/-- statelessness: translating a sequence of sources is the map of the one-source function -- the result for a source is a
+function of that source's own definitions and text, whatever was translated before it with the same substitution names -/
+def translateAll (sources : List (List (String × List STok) × List STok)) : List (List STok) :=
+  sources.map (fun src => resolveSubstitutions src.1 src.2)
+
+theorem translateAll_local (before after : List (List (String × List STok) × List STok))
+    (src : List (String × List STok) × List STok) :
+    (translateAll (before ++ src :: after))[before.length]? = some (resolveSubstitutions src.1 src.2) := by
+  simp [translateAll]
+
+example : translateAll [([("s0", [.word "a", .word "+", .word "b"])], [.word "2", .word "*", .ref "s0"]),
+                        ([("s0", [.word "c"])], [.ref "s0", .word "-", .ref "s1"])]
+    = [[.word "2", .word "*", .word "a", .word "+", .word "b"], [.word "c", .word "-", .ref "s1"]] := by decide
+
+
+/-! ## 10. End to end: print, parse, translate, evaluate -/
+
+/-- `evalEquation (parse (print e)) = evalEquation e`, for every carrier and interpretation -/
+theorem evalEquation_print_parse {α : Type} (A : Alg α) (data : Data α) (t : Int) (q : Eqn Expr) :
+    (parseEqn (printEqn q)).map (fun p => eval A data t p.xtring) = some (eval A data t q.xtring) := by
+  rw [parseEqn_printEqn]; rfl
+
+/-- composed statement with input-level hypotheses only: an equation as written (pseudofunctions, substitutions), macro-expanded,
+printed to tokens, parsed back, translated by `lhs = rhs -> -(lhs)+rhs` and evaluated gives the documented value of the
+right-hand side minus the documented value of the left-hand side, for all data and periods -/
+theorem equation_end_to_end {K : Type} [Field K] (ofRat : Rat → K) (powf : K → K → K) (f1 : String → K → K)
+    (f2 : String → K → K → K) (defs : String → Option Expr) (data : Data K) (t : Int) (lhs rhs : PExpr) (l r : Expr)
+    (hl : expand defs lhs = some l) (hr : expand defs rhs = some r) :
+    (parseEqn (printEqn (.eq l r))).map (fun p => eval (fieldAlg ofRat powf f1 f2) data t p.xtring)
+      = (do let a ← evalDoc (fieldAlg ofRat powf f1 f2) defs data t rhs
+            let b ← evalDoc (fieldAlg ofRat powf f1 f2) defs data t lhs
+            pure (a - b)) := by
+  rw [evalEquation_print_parse, eval_expand _ defs data t lhs l hl, eval_expand _ defs data t rhs r hr]
+  simp only [Eqn.xtring, eval_translate]
+  rfl
+
+example : parseEqn (printEqn (.eq (.name "x" 0) (.bin .add (.neg (.name "y" (-1))) (.call2 "maximum" (.num 2) (.name "z" 1)))))
+    = some (.eq (.name "x" 0) (.bin .add (.neg (.name "y" (-1))) (.call2 "maximum" (.num 2) (.name "z" 1)))) := parseEqn_printEqn _
+
+/-! ## 11. Moving windows, written out for each sign -/
+
+theorem window_pos (t k : Int) (h : 0 < k) : window t k = (List.range k.natAbs).map (fun (i : Nat) => t + (i : Int)) := by
+  unfold window movShifts
+  rw [List.map_map]
+  apply List.map_congr_left
+  intro i _
+  simp [h]
+
+theorem window_neg (t k : Int) (h : k < 0) : window t k = (List.range k.natAbs).map (fun (i : Nat) => t - (i : Int)) := by
+  have : ¬ (0 < k) := by omega
+  unfold window movShifts
+  rw [List.map_map]
+  apply List.map_congr_left
+  intro i _
+  simp [this, Int.sub_eq_add_neg]
+
+example : window 10 4 = [10, 11, 12, 13] := by decide
 
 end IrisVerif.C04
